@@ -4,7 +4,8 @@
   * the piece -> pVal table, the castle / en-passant / side-to-move offsets of getHashKey,
   * the promotion-code table of PolyglotBook::getMove and of getPGMove,
   * the castling square conversions of getMove (from, piece, to -> to'),
-  * entSize of Book::getBookEntries (book.cpp), the range constant of Random::nextInt
+  * entSize of Book::getBookEntries, the weight-sum limit of Book::getBookMove (book.cpp), the
+    range constant of Random::nextInt
     (random.cpp), Piece::Type numbering (piece.hpp), castle bit numbers (position.hpp)
 and writes coq/gen/PolyglotRandoms.v.
 
@@ -238,6 +239,13 @@ def translate(repo):
     if not mm:
         raise TranslateError("cannot find entSize in Book::getBookEntries")
     ent_size = parse_int(mm.group(1), "entSize")
+    gb = function_body(bk, r"Book::getBookMove\s*\([^)]*\)\s*\{", "Book::getBookMove")
+    mm = re.search(r"sum\s*\+=\s*getWeight\s*\(\s*be\.count\s*,\s*pgBook\s*\)\s*;\s*if\s*\(\s*sum\s*>\s*\(\s*1\s*<<\s*(\w+)\s*\)\s*\)\s*return\s*;", gb)
+    if not mm:
+        raise TranslateError("cannot find the weight-sum limit `if (sum > (1 << N)) return;` after the accumulation in the first loop of Book::getBookMove")
+    sum_limit_bits = parse_int(mm.group(1), "sum limit")
+    if len(re.findall(r"sum\s*\+=", gb)) != 2 or len(re.findall(r"\bfor\b", gb)) != 3:
+        raise TranslateError("Book::getBookMove has an unexpected loop structure")
     ni = function_body(rnd, r"Random::nextInt\s*\(\s*int\s+modulo\s*\)\s*\{", "Random::nextInt")
     mm = re.search(r"int\s+N\s*=\s*1\s*<<\s*(\w+)\s*;", ni)
     if not mm:
@@ -289,6 +297,8 @@ def translate(repo):
         out.append("Definition pg_%s_off : nat := %d.  Definition pg_%s_len : nat := %d." % (nm, off, nm, cnt))
     out.append("Definition pgEntSize : Z := %d%%Z." % ent_size)
     out.append("Definition nextIntBits : Z := %d%%Z." % next_int_bits)
+    out.append("(** Book::getBookMove: `if (sum > (1 << N)) return;` inside the first loop *)")
+    out.append("Definition pgSumLimitBits : Z := %d%%Z." % sum_limit_bits)
     return "\n".join(out) + "\n"
 
 
